@@ -41,12 +41,16 @@ NEEDS = {
  "C19a": "integer vector divided by a scalar other than +-1",
  "C19b": "cell barycenter of a cell whose vertices do not all touch the same number of faces (pyramid)",
 }
-root = "/tmp/wt"
+root = sys.argv[1] if len(sys.argv) > 1 else "/tmp/wt"
+# round 2 re-uses the letters a,b in the agents' worktrees: map them to fresh ids (usage: import_seeds.py /tmp/wt2 cd)
+letters = dict(zip("ab", sys.argv[2])) if len(sys.argv) > 2 else {}
 dst = "/verif/seeded"
 os.makedirs(dst, exist_ok=True)
 for cj in sorted(glob.glob(root + "/C*/_seed/*/confirm.json")):
     c = json.load(open(cj))
     sid = c["id"]
+    if letters:
+        sid = sid[:3] + letters[sid[3]]
     d = os.path.dirname(cj)
     ok = c.get("applies") and c.get("compiles") and c.get("tests_failing_other_than_known_flaky", "x") == "" and c.get("demo_exit_unchanged") == "0" and c.get("demo_exit_with_change") not in ("0", "BUILDFAIL")
     if not ok:
@@ -60,10 +64,10 @@ for cj in sorted(glob.glob(root + "/C*/_seed/*/confirm.json")):
     mp = os.path.join(o, "meta.json")
     meta = json.load(open(mp)) if os.path.exists(mp) else {}
     meta.update({
-        "id": sid, "property": sid[:3], "base_commit": "af91eac (pinned snapshot)",
+        "id": sid, "property": sid[:3], "base_commit": "af91eac (pinned snapshot)" if not letters else "HEAD of /repo with the fix: commits (round 2)",
         "needs_to_manifest": NEEDS.get(sid, "see NOTES.md"),
         "author": "independent sub-agent given only the property text and a scratch worktree",
-        "confirmed_by": "/tmp/wt/confirm.sh %s (scratch worktree): git apply patch; cmake --build; ctest; build+run demo; revert; rebuild; run demo" % sid[:3],
+        "confirmed_by": "tools/seed_agents/confirm.sh %s (scratch worktree): git apply patch; cmake --build; ctest; build+run demo; revert; rebuild; run demo" % sid[:3],
         "confirmation": c,
     })
     json.dump(meta, open(mp, "w"), indent=1)
